@@ -14,6 +14,7 @@ extern "C" {
 #include <soundswallower/dict.h>
 #include <soundswallower/err.h>
 #include <soundswallower/fsg_model.h>
+#include <soundswallower/fsg_search.h>
 #include <soundswallower/lattice.h>
 #include <soundswallower/s3file.h>
 #include <soundswallower/search_module.h>
